@@ -125,7 +125,7 @@ Example C19_example :
   let good := KDownload true true (Some 524289) [Some 262144; Some 262144; Some 1] true in
   let c := mkC19 [(KDownload true true (Some 524289) [Some 262144; None] true, None); (good, Some 8%nat);
                   (KDownload true true (Some 524289) [Some 262144; Some 262144; Some 1] false, None);
-                  (good, None); (KDownload false false None [] false, None)] in
+                  (good, None); (KDownload false false None [] false, None)] true in
   map (fun r => (outcome_code (snd r), option_map (fun _ => 0) (lookup streqb (snd (fst r)) the_path)))
       (calls (initial_dir c) (map (fun ck => (to_call (fst ck), snd ck)) (k_calls c)))
   = [(1, None); (2, None); (1, None); (0, Some 0); (0, Some 0)] /\
